@@ -102,6 +102,13 @@ def run(ctx):
         ls = b._origin_locals(sd.args[1])
         if not (la & ls):
             bad.append(("send-other-batch", "the batch sent to the client is not the batch appended to the store", None))
+        # ... and it is the local that RECEIVES the filter's result (a clone taken before filtering has the same origins but is another value)
+        fplace, faw = b.result_value_place(fl)
+        fstart = [faw[0].dest[0]] if faw is not None else fplace
+        fflow = {l for l, _ in b.flow_forward(fstart)}
+        for tgt, nm in ((ap, "sink.append"), (sd, "sender.send")):
+            if not (b._origin_locals(tgt.args[1]) & fflow):
+                bad.append(("pre-filter-copy:%s" % nm, "%s receives a value the watermark filter's result never flows into (a copy taken before filtering)" % nm, None))
         Ls = b.origins(sd.args[1], transparent=NEXT_TRANSPARENT)
         for l in Ls:
             if not (l[0] == "call" and ("recv" in l[1] or "filter" in l[1])):
